@@ -98,6 +98,7 @@ func TestPlan(t *testing.T) {
 		p.Shards = append(p.Shards, enum...)
 		p.Shards = append(p.Shards, ev.RapidShards("prog", "^TestProg$", nr, checks, nil)...)
 		p.Shards = append(p.Shards, ev.RapidShards("soup", "^TestSoup$", nr, checks*2, nil)...)
+		p.Shards = append(p.Shards, ev.RapidShards("bytes", "^TestBytes$", nr, checks, nil)...)
 	}
 	if thorough && id() != "C06" {
 		// native coverage-guided fuzzing: seeded from the repository's inputs, and once from an empty corpus
@@ -380,7 +381,7 @@ func TestPrefix(t *testing.T) {
 	})
 }
 
-var byteAlphabet = append([]string{"\x00", "\xff", "\xc3", "\xe4\xb8", "\xf0\x9f\x98\x80", " ", " ", "\v", "\f", "0", "-", "=", ">", "<", "|", "'", "\\", "{{.X}}", "task ", "task", " := ", "()", "{}", "{\n", "\n}", "aaaaaaaaaaaaaaaaaaaaaaaaaaaaaaaaaaaaaaaa"}, gen.Alphabet...)
+var byteAlphabet = append([]string{"\xa0", "\x85", "\u00a0", "\u2028", "\ufeff", "\x00", "\xff", "\xc3", "\xe4\xb8", "\xf0\x9f\x98\x80", " ", " ", "\v", "\f", "0", "-", "=", ">", "<", "|", "'", "\\", "{{.X}}", "task ", "task", " := ", "()", "{}", "{\n", "\n}", "aaaaaaaaaaaaaaaaaaaaaaaaaaaaaaaaaaaaaaaa"}, gen.Alphabet...)
 
 // TestBytes: byte strings biased to the token alphabet, NUL, invalid UTF-8, long lines,
 // deep brace runs (C08 and, as an extra space, the other input-level properties).
